@@ -588,6 +588,8 @@ func Scopes(quick bool) []Scope {
 			// a twin of w1: another workload of the same namespace with exactly the same pod labels (blue / green), other ports;
 			// it is a real workload that happens to be named like the tool's {ingress-controller} pseudo peer
 			w.WLs = append(w.WLs, wm.Workload{Kind: "Deployment", NS: "ns1", Name: "ingress-controller", Labels: map[string]string{"app": "a"}, Ports: []wm.CPort{{Name: "web", Num: 8001}, {Name: "http", Num: 81}}, Replicas: 1})
+			// a real bare Pod that happens to carry the name the tool gives its representative pods
+			w.WLs = append(w.WLs, wm.Workload{Kind: "Pod", NS: "ns1", Name: "representative-pod", Labels: map[string]string{"app": "a"}, Ports: []wm.CPort{{Name: "web", Num: 8002}}})
 			return w
 		}},
 		{"one-policy/two-rules", func(c *fw.Ctx) *wm.World {
